@@ -133,6 +133,19 @@ class World(object):
         nested.__name__ = 'on_' + real['e1']
         self.funcs[('N', 'e1')] = nested
 
+        def reemit(sender, *a, **k):
+            # reentrancy: a callback of e1 that emits e1 again on the same emitter (once: the inner dispatch reaches it too)
+            me.log.append(('M', sender, a, k, 'e1'))
+            if not getattr(me, 'in_reemit', False):
+                me.in_reemit = True
+                try:
+                    me.f['emit'](real['e1'], sender)
+                finally:
+                    me.in_reemit = False
+            return ('ret', 'M')
+        reemit.__name__ = 'on_' + real['e1']
+        self.funcs[('M', 'e1')] = reemit
+
         def connector(sender, *a, **k):
             # reentrancy: a callback of e1 that registers callback A for e1 while e1 is being dispatched; the
             # registration is due from the NEXT emit on
@@ -151,7 +164,7 @@ class World(object):
         self.funcs[('U', 'e1')] = unconnector
 
     def cb(self, tok, event):
-        if tok in ('A', 'R', 'N', 'K', 'U'):
+        if tok in ('A', 'R', 'N', 'K', 'U', 'M'):
             return self.funcs[(tok, event)], None
         return getattr(self.owners[tok], 'on_' + self.real[event]), tok
 
@@ -231,7 +244,7 @@ class World(object):
             self.ref.exit()
         elif k == 'emit':
             _, event, s, single, args, kwargs = op
-            exp = self.ref.expected_calls(event, self.S[s], single)
+            exp = self.ref.expected_calls(event, self.S[s] if s else None, single)
             raises = any(c[0] == 'R' for c in exp)
             if raises:          # a failing callback ends the dispatch; the emitter must stay usable afterwards
                 exp = exp[:[c[0] for c in exp].index('R') + 1]
@@ -241,7 +254,7 @@ class World(object):
                 kw['single'] = True
             # every other emit comes from an equal but distinct sender object
             self.n_emits = getattr(self, 'n_emits', 0) + 1
-            sender_obj = self.S[s] if self.n_emits % 2 else Sender(s)
+            sender_obj = (self.S[s] if self.n_emits % 2 else Sender(s)) if s else None        # (an emit without a sender object: None)
             r = call(self.f['emit'], self.real[event], sender_obj, *args, **kw)
             # registry changes made by callbacks during the dispatch count from the next emit on
             for c in self.log:
@@ -258,12 +271,16 @@ class World(object):
             for c in exp:
                 exp_tok.append((c[0], event))
                 if c[0] == 'N':
-                    inner = self.ref.expected_calls('e2', self.S[s], False)
+                    inner = self.ref.expected_calls('e2', self.S[s] if s else None, False)
                     if any(x[0] == 'R' for x in inner):
                         inner = inner[:[x[0] for x in inner].index('R') + 1]
                     for x in inner:
                         nested_pos.add(len(exp_tok))
                         exp_tok.append((x[0], 'e2'))
+                if c[0] == 'M':
+                    for x in self.ref.expected_calls('e1', self.S[s] if s else None, False):
+                        nested_pos.add(len(exp_tok))
+                        exp_tok.append((x[0], 'e1'))
             if got != exp_tok:
                 return 'emit(%s, %s%s) called %r, expected %r%s' % (
                     event, s, ', single' if single else '', [g[0] for g in got], [e[0] for e in exp_tok],
@@ -300,6 +317,10 @@ SMALL = CONNECTS_SMALL + [
     ('connect', 'K', 'e1', 'explicit', None, False), ('connect', 'U', 'e1', 'explicit', None, True),
     ('emit', 'e1', 'S1', False, (), {}), ('emit', 'e1', 'S2', False, (1,), {'k': 2}),
     ('emit', 'e1', 'S1', True, (), {}), ('emit', 'e2', 'S1', False, (), {})]
+SMALL_M = [('connect', 'A', 'e1', 'name', None, False), ('connect', 'A', 'e1', 'explicit', 'S1', False), ('connect', 'B', 'e1', 'explicit', 'S2', True),
+           ('connect', 'M', 'e1', 'explicit', None, False), ('connect', 'M', 'e1', 'explicit', 'S1', True), ('unconnect', [('cb', ('A', 'e1'))]),
+           ('set_silent', True), ('set_silent', False),
+           ('emit', 'e1', 'S1', False, (), {}), ('emit', 'e1', None, False, (3,), {}), ('emit', 'e1', 'S2', True, (), {}), ('emit', 'e1', None, True, (), {})]
 PROBES = [('emit', 'e1', 'S1', False, (7,), {'x': 1}), ('emit', 'e1', 'S2', False, (), {}),
           ('emit', 'e1', 'S1', True, (), {}), ('emit', 'e2', 'S2', False, (), {})]
 
@@ -320,6 +341,12 @@ def run_shard(desc, ctx):
             idx += 1
             if idx % ns == sh:
                 run_case({'kind': 'dispatch', 'ops': [SMALL[i] for i in seq], 'global': False, 'names': idx // ns}, ctx)
+    # a callback that emits the event it is handling; emits without a sender object (every history of depth <= 4 over a small alphabet)
+    for depth in range(1, 5):
+        for seq in itertools.product(range(len(SMALL_M)), repeat=depth):
+            idx += 1
+            if idx % ns == sh:
+                run_case({'kind': 'dispatch', 'ops': [SMALL_M[i] for i in seq], 'global': False, 'names': idx // ns}, ctx)
     rng = np.random.default_rng([desc['seed'], sh, 19])
     for _ in range(desc['nrand']):
         run_case({'kind': 'dispatch', 'ops': random_ops(rng), 'global': bool(_ % 3 == 0), 'names': _ // 3}, ctx)
